@@ -15,6 +15,7 @@ import (
 
 func init() {
 	register(&PropertyCheck{ID: "C01", Level: "other", Run: checkC01, Canaries: []Canary{
+		{Name: "property-fast-path-writes-the-integer-low-byte-first", Rule: "R1.4", Where: "wuint16#fillProp", Edits: []Edit{{"wiretypes.go", "func (v wuint16) fillProp(data []byte, i int, id Ident) int {\n\tif v == 0 {\n\t\treturn 0\n\t}\n\tn := i\n\ti += id.fill(data, i)\n\ti += v.fill(data, i)\n\treturn i - n\n}", "func (v wuint16) fillProp(data []byte, i int, id Ident) int {\n\tif v == 0 {\n\t\treturn 0\n\t}\n\treturn fillBytes(data, i, byte(id), byte(v), byte(v>>8))\n}\n\nfunc fillBytes(data []byte, i int, b ...byte) int {\n\tif len(data) >= i+len(b) {\n\t\tcopy(data[i:], b)\n\t}\n\treturn len(b)\n}"}}},
 		{Name: "reason-codes-moved-by-bulk-copy", Silent: true, Edits: []Edit{{"suback.go", "func (p *SubAck) payload(b []byte, i int) int {\n\tn := i\n\tfor j, _ := range p.reasonCodes {\n\t\ti += wuint8(p.reasonCodes[j]).fill(b, i)\n\t}\n\treturn i - n\n}\n\nfunc (p *SubAck) UnmarshalBinary(data []byte) error {\n\tb := &buffer{data: data}\n\tb.get(&p.packetID)\n\tb.getAny(p.propertyMap(), p.appendUserProperty)\n\n\tp.reasonCodes = make([]uint8, len(data)-b.i)\n\n\tfor i, _ := range p.reasonCodes {\n\t\tvar v wuint8\n\t\tb.get(&v)\n\t\tp.reasonCodes[i] = uint8(v)\n\t}\n\treturn b.err", "// payload writes the reason codes, one byte each.\nfunc (p *SubAck) payload(b []byte, i int) int {\n\tn := len(p.reasonCodes)\n\tif len(b) >= i+n {\n\t\tcopy(b[i:], p.reasonCodes)\n\t}\n\treturn n\n}\n\nfunc (p *SubAck) UnmarshalBinary(data []byte) error {\n\tb := &buffer{data: data}\n\tb.get(&p.packetID)\n\tb.getAny(p.propertyMap(), p.appendUserProperty)\n\n\t// the rest of the data is the list of reason codes, one byte each\n\trest := data[b.i:]\n\tp.reasonCodes = make([]uint8, len(rest))\n\tif b.err != nil {\n\t\treturn b.err\n\t}\n\tb.i += copy(p.reasonCodes, rest)\n\treturn nil"}, {"unsuback.go", "func (p *UnsubAck) payload(b []byte, i int) int {\n\tn := i\n\tfor j, _ := range p.reasonCodes {\n\t\ti += wuint8(p.reasonCodes[j]).fill(b, i)\n\t}\n\treturn i - n\n}\n\nfunc (p *UnsubAck) UnmarshalBinary(data []byte) error {\n\tb := &buffer{data: data}\n\tb.get(&p.packetID)\n\tb.getAny(p.propertyMap(), p.appendUserProperty)\n\n\tp.reasonCodes = make([]uint8, len(data)-b.i)\n\n\tfor i, _ := range p.reasonCodes {\n\t\tvar v wuint8\n\t\tb.get(&v)\n\t\tp.reasonCodes[i] = uint8(v)\n\t}\n\treturn b.err", "// payload writes the reason codes, one byte each.\nfunc (p *UnsubAck) payload(b []byte, i int) int {\n\tn := len(p.reasonCodes)\n\tif len(b) >= i+n {\n\t\tcopy(b[i:], p.reasonCodes)\n\t}\n\treturn n\n}\n\nfunc (p *UnsubAck) UnmarshalBinary(data []byte) error {\n\tb := &buffer{data: data}\n\tb.get(&p.packetID)\n\tb.getAny(p.propertyMap(), p.appendUserProperty)\n\n\t// the rest of the data is the list of reason codes, one byte each\n\trest := data[b.i:]\n\tp.reasonCodes = make([]uint8, len(rest))\n\tif b.err != nil {\n\t\treturn b.err\n\t}\n\tb.i += copy(p.reasonCodes, rest)\n\treturn nil"}}},
 		{Name: "bulk-copy-decodes-the-list-from-the-wrong-offset", Rule: "R1.1", Where: "SubAck", Edits: []Edit{{"suback.go", "func (p *SubAck) payload(b []byte, i int) int {\n\tn := i\n\tfor j, _ := range p.reasonCodes {\n\t\ti += wuint8(p.reasonCodes[j]).fill(b, i)\n\t}\n\treturn i - n\n}\n\nfunc (p *SubAck) UnmarshalBinary(data []byte) error {\n\tb := &buffer{data: data}\n\tb.get(&p.packetID)\n\tb.getAny(p.propertyMap(), p.appendUserProperty)\n\n\tp.reasonCodes = make([]uint8, len(data)-b.i)\n\n\tfor i, _ := range p.reasonCodes {\n\t\tvar v wuint8\n\t\tb.get(&v)\n\t\tp.reasonCodes[i] = uint8(v)\n\t}\n\treturn b.err", "// payload writes the reason codes, one byte each.\nfunc (p *SubAck) payload(b []byte, i int) int {\n\tn := len(p.reasonCodes)\n\tif len(b) >= i+n {\n\t\tcopy(b[i:], p.reasonCodes)\n\t}\n\treturn n\n}\n\nfunc (p *SubAck) UnmarshalBinary(data []byte) error {\n\tb := &buffer{data: data}\n\tb.get(&p.packetID)\n\tb.getAny(p.propertyMap(), p.appendUserProperty)\n\n\t// the rest of the data is the list of reason codes, one byte each\n\trest := data[b.i-1:]\n\tp.reasonCodes = make([]uint8, len(rest))\n\tif b.err != nil {\n\t\treturn b.err\n\t}\n\tb.i += copy(p.reasonCodes, rest)\n\treturn nil"}, {"unsuback.go", "func (p *UnsubAck) payload(b []byte, i int) int {\n\tn := i\n\tfor j, _ := range p.reasonCodes {\n\t\ti += wuint8(p.reasonCodes[j]).fill(b, i)\n\t}\n\treturn i - n\n}\n\nfunc (p *UnsubAck) UnmarshalBinary(data []byte) error {\n\tb := &buffer{data: data}\n\tb.get(&p.packetID)\n\tb.getAny(p.propertyMap(), p.appendUserProperty)\n\n\tp.reasonCodes = make([]uint8, len(data)-b.i)\n\n\tfor i, _ := range p.reasonCodes {\n\t\tvar v wuint8\n\t\tb.get(&v)\n\t\tp.reasonCodes[i] = uint8(v)\n\t}\n\treturn b.err", "// payload writes the reason codes, one byte each.\nfunc (p *UnsubAck) payload(b []byte, i int) int {\n\tn := len(p.reasonCodes)\n\tif len(b) >= i+n {\n\t\tcopy(b[i:], p.reasonCodes)\n\t}\n\treturn n\n}\n\nfunc (p *UnsubAck) UnmarshalBinary(data []byte) error {\n\tb := &buffer{data: data}\n\tb.get(&p.packetID)\n\tb.getAny(p.propertyMap(), p.appendUserProperty)\n\n\t// the rest of the data is the list of reason codes, one byte each\n\trest := data[b.i:]\n\tp.reasonCodes = make([]uint8, len(rest))\n\tif b.err != nil {\n\t\treturn b.err\n\t}\n\tb.i += copy(p.reasonCodes, rest)\n\treturn nil"}}},
 		{Name: "options-byte-written-only-when-non-zero", Rule: "R1.1", Where: "Subscribe", Edits: []Edit{{"topicfilter.go", "\ti += c.options.fill(b, i)", "\ti += c.options.fillOpt(b, i) // subscription options"}}},
@@ -42,6 +43,10 @@ func init() {
 		{Name: "raw-payload-never-copied", Rule: "R1.4", Where: "wire type rawdata", Edits: []Edit{{"wiretypes.go", "\tif len(data) >= i+v.width() {\n\t\treturn copy(data[i:], []byte(v))\n\t}\n\treturn v.width()", "\treturn v.width()"}}},
 		{Name: "user-property-key-and-value-share-a-variable", Rule: "R1.4", Where: "wire type UserProp", Edits: []Edit{{"wiretypes.go", "\tvar val wstring\n\tif err := val.UnmarshalBinary(data[i:]); err != nil {\n\t\treturn unmarshalErr(v, \"value\", err.(*Malformed))\n\t}\n\tv[1] = string(val)", "\tif err := key.UnmarshalBinary(data[i:]); err != nil {\n\t\treturn unmarshalErr(v, \"value\", err.(*Malformed))\n\t}\n\tv[1] = string(key)"}}},
 		{Name: "u32-little-endian-decoder", Rule: "R1.4", Where: "wuint32", Edits: []Edit{{"wiretypes.go", "\t*v = wuint32(binary.BigEndian.Uint32(data))", "\t*v = wuint32(binary.LittleEndian.Uint32(data))"}}},
+		{Name: "adv4-A1-hoisted-filter", Rule: "R1.1", Where: "Unsubscribe", Edits: []Edit{{"unsubscribe.go", "\tfor {\n\t\tvar f wstring", "\tvar f wstring // decoded into once per filter, avoids one allocation per iteration\n\tfor {"}}},
+		{Name: "adv4-A2-flag-mask-omits-will-retain", Rule: "R1.5", Where: "Connect", Edits: []Edit{{"connect.go", "\n\treturn buf.Err()\n}", "\tp.flags &= bits(definedConnectFlags)\n\n\treturn buf.Err()\n}"}, {"connect.go", "// CONNECT flags used in Connect.HasFlag()", "const definedConnectFlags = UsernameFlag | PasswordFlag |\n\tWillQoS2 | WillQoS1 | WillFlag | CleanStart\n\n// CONNECT flags used in Connect.HasFlag()"}}},
+		{Name: "adv4-A2-flag-mask-complete", Silent: true, Edits: []Edit{{"connect.go", "\n\treturn buf.Err()\n}", "\tp.flags &= bits(definedConnectFlags)\n\n\treturn buf.Err()\n}"}, {"connect.go", "// CONNECT flags used in Connect.HasFlag()", "const definedConnectFlags = UsernameFlag | PasswordFlag | WillRetain |\n\tWillQoS2 | WillQoS1 | WillFlag | CleanStart | Reserved\n\n// CONNECT flags used in Connect.HasFlag()"}}},
+		{Name: "adv4-A3-clamp-for-one-identifier", Rule: "R1.4", Where: "wuint32#fillProp", Edits: []Edit{{"const.go", "\tmaxUint16 = 1<<16 - 1", "\tmaxUint16 = 1<<16 - 1\n\n\tmaxPacketSize = 1 + 4 + 268_435_455"}, {"wiretypes.go", "func (v wuint32) fillProp(data []byte, i int, id Ident) int {\n\tif v == 0 {\n\t\treturn 0\n\t}", "func (v wuint32) fillProp(data []byte, i int, id Ident) int {\n\tif v == 0 {\n\t\treturn 0\n\t}\n\tif id == MaxPacketSize && v > maxPacketSize {\n\t\tv = maxPacketSize\n\t}"}}},
 		{Name: "unsubscribe-filter-list-decoded-once", Rule: "R1.1", Where: "Unsubscribe", Edits: []Edit{{"unsubscribe.go", "\t\tp.filters = append(p.filters, f)\n\t\tif b.i == len(data) {\n\t\t\tbreak\n\t\t}", "\t\tp.filters = append(p.filters, f)\n\t\tbreak"}}},
 		{Name: "subscription-ids-emitted-once", Rule: "R1.2", Where: "Publish", Edits: []Edit{{"publish.go", "\tfor j, _ := range p.subscriptionIDs {\n\t\ti += vbint(p.subscriptionIDs[j]).fillProp(b, i, SubscriptionID)\n\t}", "\tif len(p.subscriptionIDs) > 0 {\n\t\ti += vbint(p.subscriptionIDs[0]).fillProp(b, i, SubscriptionID)\n\t}"}}},
 		{Name: "property-lines-reordered", Silent: true, Edits: []Edit{{"auth.go", "\ti += p.authMethod.fillProp(b, i, AuthMethod)\n\ti += p.authData.fillProp(b, i, AuthData)", "\ti += p.authData.fillProp(b, i, AuthData)\n\ti += p.authMethod.fillProp(b, i, AuthMethod)"}}},
@@ -269,6 +274,15 @@ func checkC01(p *Prog, c *Check) {
 					if t1[i].Kind != t2[i].Kind || t1[i].Width != t2[i].Width {
 						same = false
 					}
+					// determined integers and booleans (first byte, flag bytes, lengths, identifiers, numbers) must be
+					// the same numbers: "writing the decoded packet again produces byte-identical output"
+					a, b2 := t1[i].Val, t2[i].Val
+					if (a.k == 'i' && b2.k == 'i' && a.i != b2.i) || (a.k == 'b' && b2.k == 'b' && a.b != b2.b) {
+						same = false
+						if bad["R1.5"] == "" {
+							bad["R1.5"] = where + fmt.Sprintf("re-encoding the decoded packet writes another value for item %d (%s): %v instead of %v", i, t1[i].What, b2, a)
+						}
+					}
 				}
 				if !same && bad["R1.5"] == "" {
 					bad["R1.5"] = where + "re-encoding the decoded packet gives a different item sequence: " + traceString(evs2) + " instead of " + traceString(cs.evs)
@@ -299,6 +313,7 @@ func checkC01(p *Prog, c *Check) {
 	p.checkCodecPairing(c)
 	c.Rule("R1.6", "adders: every exported Add* method, evaluated on its own with abstract elements and — for integers — every boundary value of the domain, appends what it is given, in order, to what the matching accessor or exported list field returned before; a second call keeps the first call's elements (the round trip cannot see a value that is dropped before it is ever stored)")
 	checkAdders(p, c)
+	p.checkFillPropByEvaluation(c, "R1.4")
 	// R1.7: the property writes with WriteTo: what reaches the writer is the encoder's output examined above — one
 	// buffer of the frame's size, filled by that encoder, handed over whole (shape rule of C10 R10.1, shared)
 	c.Rule("R1.7", "every packet type's WriteTo hands the writer exactly what the type's encoder produces: one buffer sized by the encoder's dry run (or a size method that agrees with it on every abstract state), filled by it from offset 0, written once (C10 R10.1, shared)")
@@ -1018,4 +1033,131 @@ func checkAdders(p *Prog, c *Check) {
 	}
 	c.Measured["adders_checked"] = nadd
 	c.Floor("exported adders", nadd, 5, "user properties, subscription identifiers, filters, reason codes")
+}
+
+// checkFillPropByEvaluation: for every fixed-width wire type, fillProp(buf, off, id) — evaluated on concrete values —
+// writes the identifier byte followed by exactly what fill writes for the same value, returns that many bytes, and
+// leaves the bytes around them alone; for the zero value it writes nothing and returns 0 (properties with their
+// default value are omitted).  The co-simulation takes a fillProp event for "identifier + value": a fast path inside
+// fillProp that encodes the value itself is outside R1.4's pairing of fill with the decoder.
+func (p *Prog) checkFillPropByEvaluation(c *Check, rule string) {
+	n := 0
+	for _, name := range p.Pkg.Scope().Names() {
+		tnm, ok := p.Pkg.Scope().Lookup(name).(*types.TypeName)
+		if !ok || tnm.IsAlias() {
+			continue
+		}
+		kind := p.wireKindOf(tnm.Type())
+		var vals []int64
+		switch kind {
+		case "byte":
+			vals = []int64{1, 0xA7, 0xFF}
+		case "bool":
+			vals = []int64{1}
+		case "u16":
+			vals = []int64{1, 0x1234, 0xFFFF}
+		case "u32":
+			vals = []int64{1, 0x12345678, 0xFFFFFFFF}
+		default:
+			continue
+		}
+		fill, fp := p.Method(name, "fill"), p.Method(name, "fillProp")
+		if fill == nil || fp == nil || len(fp.Params) != 4 || len(fill.Params) != 3 {
+			continue
+		}
+		if rs := p.retSummary(fp); rs.exact != nil && rs.exact.isConst() && rs.exact.c == 0 {
+			continue // never written as a property (the identifier type itself)
+		}
+		n++
+		cons := "wire type " + name + "#fillProp"
+		bad, unk := "", ""
+		arg := func(v int64) sv {
+			if kind == "bool" {
+				return sv{k: 'b', b: v != 0}
+			}
+			return sv{k: 'i', i: v}
+		}
+		run := func(fn *ssa.Function, args []sv) ([]int64, int64, string) {
+			ctx := p.newSym(p.globalInput())
+			for k := 0; k < 10; k++ {
+				ctx.mem[fmt.Sprintf("BUF[%d]", k)] = sv{k: 'i', i: 0x55}
+			}
+			rs, ok := ctx.evalPure(fn, args, nil, 0)
+			if !ok || len(rs) != 1 || rs[0].k != 'i' {
+				return nil, 0, "cannot evaluate " + qname(fn) + ": " + ctx.why
+			}
+			var out []int64
+			for k := 0; k < 10; k++ {
+				cell := ctx.mem[fmt.Sprintf("BUF[%d]", k)]
+				if cell.k != 'i' {
+					return nil, 0, qname(fn) + ": an output byte is not determined"
+				}
+				out = append(out, cell.i&0xff)
+			}
+			return out, rs[0].i, ""
+		}
+		// with every identifier the specification defines: a value "normalised" for one identifier (Maximum Packet Size
+		// clamped, say) is another encoding of what was set
+		var ids []int64
+		for _, sp := range specProps {
+			ids = append(ids, int64(sp.ID))
+		}
+		sort.Slice(ids, func(i, j int) bool { return ids[i] < ids[j] })
+		for _, id := range ids {
+			if bad != "" || unk != "" {
+				break
+			}
+			for _, v := range append([]int64{0}, vals...) {
+				fb, fw, why := run(fill, []sv{arg(v), {k: 's', i: 10, addr: "BUF"}, {k: 'i', i: 2}})
+				if why != "" {
+					unk = why
+					break
+				}
+				pb, pw, why := run(fp, []sv{arg(v), {k: 's', i: 10, addr: "BUF"}, {k: 'i', i: 1}, {k: 'i', i: id}})
+				if why != "" {
+					unk = why
+					break
+				}
+				if v == 0 {
+					if pw != 0 {
+						continue // a type that writes its zero value as a property: nothing to compare with a convention
+					}
+					for k := 0; k < 10; k++ {
+						if pb[k] != 0x55 {
+							bad = fmt.Sprintf("fillProp of the zero value reports 0 bytes but writes at buffer index %d", k)
+						}
+					}
+					continue
+				}
+				if pw != fw+1 {
+					bad = fmt.Sprintf("fillProp(%#x) reports %d byte(s); the identifier and the %d byte(s) fill writes make %d", v, pw, fw, fw+1)
+					break
+				}
+				if pb[1] != id {
+					bad = fmt.Sprintf("fillProp(%#x, identifier %#02x) does not write the identifier first (byte %#02x)", v, id, pb[1])
+					break
+				}
+				for k := int64(0); k < fw; k++ {
+					if pb[2+k] != fb[2+k] {
+						bad = fmt.Sprintf("fillProp(%#x, identifier %#02x) writes % x after the identifier; fill writes % x for the same value", v, id, pb[2:2+fw], fb[2:2+fw])
+					}
+				}
+				if pb[0] != 0x55 || pb[2+fw] != 0x55 {
+					bad = fmt.Sprintf("fillProp(%#x) writes outside its %d byte(s)", v, pw)
+				}
+				if bad != "" {
+					break
+				}
+			}
+		}
+		switch {
+		case unk != "":
+			c.Unk(rule, cons, p.Pos(fp.Pos()), unk)
+		case bad != "":
+			c.Bad(rule, cons, p.Pos(fp.Pos()), bad)
+		default:
+			c.OK(rule, cons, p.Pos(fp.Pos()), "evaluated: identifier byte, then exactly what fill writes for the same value; nothing for the zero value")
+		}
+	}
+	c.Floor("fixed-width wire types with fillProp evaluated", n, 3, "byte, two-byte and four-byte properties")
 }
